@@ -35,3 +35,15 @@ const (
 	VerifC16DataMaxSize     = dataMaxSize
 	VerifC16SealedFrameSize = totalFrameSize + aeadSizeOverhead
 )
+
+// VerifC16SetCounters fast-forwards the 64-bit frame counters of an established connection (the state a link
+// reaches after that many frames); the fixed 4-byte prefix of the nonces is left alone. Test double only: it
+// stores values, the increment logic under test is untouched.
+func (sc *SecretConnection) VerifC16SetCounters(send, recv uint64) {
+	sc.sendMtx.Lock()
+	binary.LittleEndian.PutUint64(sc.sendNonce[4:], send)
+	sc.sendMtx.Unlock()
+	sc.recvMtx.Lock()
+	binary.LittleEndian.PutUint64(sc.recvNonce[4:], recv)
+	sc.recvMtx.Unlock()
+}
